@@ -101,6 +101,10 @@ func runRace(c *core.Ctx) {
 	defer w.close()
 	G := c.Rng.Range(4, 16)
 	rounds := c.Rng.Range(3, 4)
+	// scheduler pressure: vary the parallelism per case (few Ps = long uninterrupted stretches, many = true parallelism)
+	procs := []int{2, 4, 8, 16}[c.Rng.Intn(4)]
+	defer runtime.GOMAXPROCS(runtime.GOMAXPROCS(procs))
+	c.Count(fmt.Sprintf("gomaxprocs=%d", procs), 1)
 	w.afterOp(opCtx{kind: "init", sender: -1}, "start")
 	overlap := false
 	concurrentCommits := 0
